@@ -208,6 +208,11 @@ JVCmp(e) ==
   \cup Chk(e.pcmp = c, "C04:partial-cmp")
   \cup Chk(e.rcmp = -c, "C04:antisymmetric")
   \cup Chk(e.eq = (c = 0) /\ e.ne = (c # 0), "C04:eq-iff-equal")
+  \* the by-value max / min (provided methods of Ord that a type may override) answer one of the two, and the right one
+  \cup Chk(/\ e.vmax \in {e.a, e.b} /\ e.vmaxr \in {e.a, e.b} /\ e.vmin \in {e.a, e.b} /\ e.vminr \in {e.a, e.b}
+           /\ VCmp(e.vmax, IF c = 1 THEN e.a ELSE e.b) = 0 /\ VCmp(e.vmaxr, IF c = 1 THEN e.a ELSE e.b) = 0
+           /\ VCmp(e.vmin, IF c = -1 THEN e.a ELSE e.b) = 0 /\ VCmp(e.vminr, IF c = -1 THEN e.a ELSE e.b) = 0, "C04:max-min-by-value")
+  \cup Chk((c = 0) => e.hseq, "C04:hash-in-containers")
   \cup Chk(e.lt = (c = -1) /\ e.le = (c # 1) /\ e.gt = (c = 1) /\ e.ge = (c # -1), "C04:operators")
   \cup Chk(c = 0 => e.heq, "C04:hash")
   \cup Chk((e.maxa => c = 1) /\ (c = 1 => e.maxa) /\ (e.mina => c # 1) /\ (c # 1 => e.mina), "C04:max-min")
